@@ -646,12 +646,22 @@ def rule_completion_spares_core(repo: Repo, rep, rule: str = "R1.11") -> None:
         L = _L(fn.node)
         cfg = None
         for st in own_nodes(fn.node):
-            if not (isinstance(st, ast.Assign) and len(st.targets) == 1 and isinstance(st.targets[0], ast.Name) and isinstance(st.value, ast.JoinedStr)):
+            # `m = f"{root}.{m}"`  -  or, in a helper that completes its argument, `return f"{root}.{m}"` next to `return m`
+            if isinstance(st, ast.Assign) and len(st.targets) == 1 and isinstance(st.targets[0], ast.Name) and isinstance(st.value, ast.JoinedStr):
+                js, same = st.value, st.targets[0].id
+            elif isinstance(st, ast.Return) and isinstance(st.value, ast.JoinedStr):
+                js, same = st.value, None
+            else:
                 continue
-            fv = [v for v in st.value.values if isinstance(v, ast.FormattedValue)]
-            consts = [v.value for v in st.value.values if isinstance(v, ast.Constant)]
-            if not (len(fv) == 2 and consts == ["."] and isinstance(fv[1].value, ast.Name) and fv[1].value.id == st.targets[0].id):
-                continue  # not `m = f"{root}.{m}"`
+            fv = [v for v in js.values if isinstance(v, ast.FormattedValue)]
+            consts = [v.value for v in js.values if isinstance(v, ast.Constant)]
+            if not (len(fv) == 2 and consts == ["."] and isinstance(fv[1].value, ast.Name)):
+                continue
+            if same is not None and fv[1].value.id != same:
+                continue
+            if same is None and not (fv[1].value.id in fn.params and any(
+                    isinstance(r, ast.Return) and isinstance(r.value, ast.Name) and r.value.id == fv[1].value.id for r in own_nodes(fn.node))):
+                continue
             n += 1
             cfg = cfg or CFG(fn.node)
             dom = cfg.dominators()
@@ -667,7 +677,11 @@ def rule_completion_spares_core(repo: Repo, rep, rule: str = "R1.11") -> None:
                     pj = pol
                     while isinstance(cj, ast.UnaryOp) and isinstance(cj.op, ast.Not):
                         cj, pj = cj.operand, not pj
-                    txt = norm(L.inline(cj, stop=tuple(L.params)))
+                    cji = L.inline(cj, stop=tuple(L.params))
+                    txt = norm(cji)
+                    # the core test may live in a method of the class (`self._is_in_core_package(m)`): its body is what is tested
+                    for hc in [x for x in ast.walk(cji) if isinstance(x, ast.Call) and isinstance(x.func, ast.Attribute) and x.func.attr in rc.methods]:
+                        txt += " " + " ".join(norm(r.value) for r in own_nodes(rc.methods[hc.func.attr].node) if isinstance(r, ast.Return) and r.value is not None)
                     if pj is False and "core_package_name" in txt and (".startswith(" in txt or "==" in txt):
                         spared = True
             sub = f"{fn.module.relpath}:{fn.qualname} `{norm(st)[:60]}`"
